@@ -8,6 +8,12 @@ pub mod common;
 pub mod c02;
 pub mod c03;
 pub mod c04;
+pub mod c05;
+pub mod c06;
+pub mod c07;
+pub mod c09;
+pub mod c14;
+pub mod c17;
 
 pub type MonitorFn = fn(&Ctx) -> Vec<Report>;
 
@@ -16,5 +22,10 @@ pub fn registry() -> Vec<(&'static str, MonitorFn)> {
         ("C02", c02::run as MonitorFn),
         ("C03", c03::run as MonitorFn),
         ("C04", c04::run as MonitorFn),
+        ("C05", c05::run as MonitorFn),
+        ("C06", c06::run as MonitorFn),
+        ("C07", c07::run as MonitorFn),
+        ("C09", c09::run as MonitorFn),
+        ("C17", c17::run as MonitorFn),
     ]
 }
